@@ -41,7 +41,7 @@ def optF64 (fp : FloatParse) (parent : XNode) (tag : String) : Option (Option UI
   match ← typedChild parent tag "Float" with
   | none => pure none
   | some t =>
-    let v ← fp.f64 ((t.textOf).getD "0")
+    let v ← fp.f64 (rustTrim ((t.textOf).getD "0"))   -- white space around a number is not part of it
     pure (some v)
 
 def reqF64 (fp : FloatParse) (parent : XNode) (tag : String) : Option UInt64 := do
@@ -53,7 +53,7 @@ def optI64 (parent : XNode) (tag : String) : Option (Option Int) := do
   match ← typedChild parent tag "Integer" with
   | none => pure none
   | some t =>
-    let v ← parseI64 ((t.textOf).getD "0")
+    let v ← parseI64 (rustTrim ((t.textOf).getD "0"))
     pure (some v)
 
 def reqI64 (parent : XNode) (tag : String) : Option Int := do
@@ -64,7 +64,7 @@ def reqI64 (parent : XNode) (tag : String) : Option Int := do
 def reqU32 (parent : XNode) (tag : String) : Option Nat := do
   match ← typedChild parent tag "Integer" with
   | none => none
-  | some t => parseU32 ((t.textOf).getD "0")
+  | some t => parseU32 (rustTrim ((t.textOf).getD "0"))
 
 /-- `DateTime::from_node`: `Result<Option<DateTime>>` -/
 def DateTime.fromNode (fp : FloatParse) (node : XNode) : Option (Option DateTime) := do
@@ -72,7 +72,7 @@ def DateTime.fromNode (fp : FloatParse) (node : XNode) : Option (Option DateTime
   match tv.textOf with
   | none => pure none
   | some text =>
-    let gps ← fp.f64 text
+    let gps ← fp.f64 (rustTrim text)
     match node.children.find? (fun n => n.hasTagName "isAtomicClockReferenced" && n.attr "type" == some "Integer") with
     | none => pure (some ⟨gps, false⟩)   -- the flag is optional
     | some an => pure (some ⟨gps, parseI64 (rustTrim ((an.textOf).getD "0")) == some 1⟩)
@@ -147,7 +147,7 @@ def extractLimit (fp : FloatParse) (bounds : XNode) (tag : String) : Option (Opt
   | none => some none
   | some t => do
     let ty ← t.attr "type"
-    let vs := (t.textOf).getD "0"
+    let vs := rustTrim ((t.textOf).getD "0")
     if ty == "Integer" then pure (some (.integer (← parseI64 vs)))
     else if ty == "ScaledInteger" then pure (some (.scaled (← parseI64 vs)))
     else if ty == "Float" then
